@@ -25,9 +25,26 @@ SqPorts     == 1..4
 SqInit      == [s \in {1, 2, 3, 4} |-> {1, 2, 3, 4}]
 SqLinks     == {<<1, 1, 2, 1>>, <<2, 2, 3, 1>>, <<3, 2, 4, 1>>, <<1, 2, 4, 2>>, <<1, 3, 3, 3>>, <<2, 3, 4, 3>>,
                 <<1, 3, 2, 3>>}
+AllOpPorts  == Sw \X Ports
 NoOps       == {}
+NoOpPorts   == {}
+OneOpPorts  == {<<1, 1>>, <<1, 2>>}
+PairOpPorts == {<<1, 1>>, <<2, 2>>}
 AllOps      == {"add", "del", "down", "up"}
 LinkOps     == {"down", "up"}
 NoFresh     == {FALSE}
 AnyFresh    == {FALSE, TRUE}
+\* a lone switch with three ports: waiting periods, port events, reconnects (no links at all)
+LoneSw      == {1}
+LonePorts   == 1..2
+LoneInit    == [s \in {1} |-> {1, 2}]
+NoLinks     == {}
+LoneOpPorts == {<<1, 1>>, <<1, 2>>}
+\* restrictions of the ENVIRONMENT used by some model-checking configurations (the spec itself is unrestricted)
+Eager     == (\E s \in Sw : chan[s] # <<>>) => last'.a = "Deliver"       \* the channel is drained at once
+OnlyFlap1 == last'.a = "ConnDown" => last'.args.s = 1                   \* only switch 1 ever disconnects
+EagerFlap1 == Eager /\ OnlyFlap1
+ExportEager      == Eager /\ ExportT
+ExportEagerFlap1 == Eager /\ OnlyFlap1 /\ ExportT
+LoneOpPorts1 == {<<1, 1>>}
 ====
